@@ -364,7 +364,11 @@ def run(tier: str) -> int:
     nc, rc = intrinsic_compile_obligations()
     ni += nc
     ri = ri + rc
+    per_kind = {}
     for row in rs + re_ + ri:
+        per_kind[row["kind"]] = per_kind.get(row["kind"], 0) + 1
+        if per_kind[row["kind"]] > 5 and not any(x.get("kind") == row["kind"] for x in known):
+            continue  # the same kind of row failure is reported five times at most (rows_failing has the count)
         k = next((x for x in known if x.get("kind") == row["kind"] and row.get("name", row.get("cls", row.get("enum"))) in x.get("names", [])), None)
         if k is not None:
             rep.known(f"{k['id']} {k['what']} [{row.get('name', row.get('cls', row.get('enum')))}]")
